@@ -114,6 +114,7 @@ type Unit struct {
 	cmdTag   []string
 	curTag   string
 	hyps     []hyp
+	witnesses []idxAt // skolem constants of assumed existentials
 	idxTerms []idxAt
 	elemComps map[string]bool
 	repoCallees map[string]bool // contracts of /repo functions and interfaces assumed at call sites
@@ -162,6 +163,19 @@ func (u *Unit) assume(t Term) {
 func (u *Unit) assumeRec(t Term, rec *Rec) {
 	if t == "true" {
 		return
+	}
+	if rec != nil {
+		// an assumed existential is skolemised here, so that its witness has a name that can be offered to later
+		// existential goals (the solver's own skolem constants are not visible to the instantiation engine)
+		for _, q := range rec.Quants {
+			if q.Ex && !q.Neg && len(q.TVars) == 0 && strings.Contains(t, q.Text) {
+				u.nfresh++
+				sk := fmt.Sprintf("hsk!%d", u.nfresh)
+				u.emit("(declare-fun " + sk + " () Int)")
+				t = strings.ReplaceAll(t, q.Text, "(and "+strings.ReplaceAll(q.Rng, q.Var, sk)+" "+strings.ReplaceAll(q.Body, q.Var, sk)+")")
+				u.witnesses = append(u.witnesses, idxAt{len(u.cmds), sk})
+			}
+		}
 	}
 	u.emit("(assert " + t + ")")
 	if rec == nil {
@@ -281,20 +295,22 @@ func (u *Unit) entryComp(name string) Term {
 
 // closedFacts states that a heap component holds no reference to an object that is not yet allocated.
 func (u *Unit) closedFacts(name string, t Term, alloc Term) {
+	// only for addresses that are allocated at that point: what a component holds at a not-yet-allocated address is
+	// unconstrained (a callee may allocate an object there and initialise it with references to other fresh objects)
 	cs := u.compSortOf(name)
 	switch {
 	case cs == "(Array Ref Ref)":
-		u.assume("(forall ((r Ref)) (< (rootid (select " + t + " r)) " + alloc + "))")
+		u.assume("(forall ((r Ref)) (! (=> (< (rootid r) " + alloc + ") (< (rootid (select " + t + " r)) " + alloc + ")) :pattern ((select " + t + " r))))")
 	case cs == "(Array Ref Iface)":
-		u.assume("(forall ((r Ref)) (< (rootid (val (select " + t + " r))) " + alloc + "))")
+		u.assume("(forall ((r Ref)) (! (=> (< (rootid r) " + alloc + ") (< (rootid (val (select " + t + " r))) " + alloc + ")) :pattern ((select " + t + " r))))")
 	case cs == "(Array Ref Slice)":
-		u.assume("(forall ((r Ref)) (< (sbase (select " + t + " r)) " + alloc + "))")
+		u.assume("(forall ((r Ref)) (! (=> (< (rootid r) " + alloc + ") (< (sbase (select " + t + " r)) " + alloc + ")) :pattern ((select " + t + " r))))")
 	case cs == "(Array Int (Array Int Ref))":
-		u.assume("(forall ((b Int) (i Int)) (< (rootid (select (select " + t + " b) i)) " + alloc + "))")
+		u.assume("(forall ((b Int) (i Int)) (! (=> (< b " + alloc + ") (< (rootid (select (select " + t + " b) i)) " + alloc + ")) :pattern ((select (select " + t + " b) i))))")
 	case cs == "(Array Int (Array Int Iface))":
-		u.assume("(forall ((b Int) (i Int)) (< (rootid (val (select (select " + t + " b) i))) " + alloc + "))")
+		u.assume("(forall ((b Int) (i Int)) (! (=> (< b " + alloc + ") (< (rootid (val (select (select " + t + " b) i))) " + alloc + ")) :pattern ((select (select " + t + " b) i))))")
 	case cs == "(Array Int (Array Int Slice))":
-		u.assume("(forall ((b Int) (i Int)) (< (sbase (select (select " + t + " b) i)) " + alloc + "))")
+		u.assume("(forall ((b Int) (i Int)) (! (=> (< b " + alloc + ") (< (sbase (select (select " + t + " b) i)) " + alloc + ")) :pattern ((select (select " + t + " b) i))))")
 	}
 }
 
@@ -588,6 +604,15 @@ func (o *Obligation) instantiate() (Term, []string) {
 				offs[off] = true
 			}
 			seenAlt := map[Term]bool{}
+			for _, w := range u.witnesses {
+				if w.pos <= o.Prefix {
+					a := "(and " + strings.ReplaceAll(q.Rng, q.Var, w.t) + " " + strings.ReplaceAll(q.Body, q.Var, w.t) + ")"
+					if !seenAlt[a] {
+						seenAlt[a] = true
+						alts = append(alts, a)
+					}
+				}
+			}
 			for off := range offs {
 				for _, c := range cands {
 					t := "(- " + c + " " + off + ")"
